@@ -41,7 +41,7 @@ func NewPublisher(doc *gedcom.Document, options *PublishShowOptions) *Publisher 
 		indexLetters: GetIndexLetters(doc, options.LivingVisibility),
 
 		// placesMap can be nil because we handle found the places yet.
-		individuals: GetIndividuals(doc, nil),
+		individuals: getVisibleIndividuals(doc, options.LivingVisibility, nil),
 	}
 }
 
